@@ -37,6 +37,7 @@ type Case struct {
 	Dir    [3]float64  `json:"dir"`
 	Range  int         `json:"range"`
 	Ladder *LadderCase `json:"ladder,omitempty"` // size-ladder case
+	Reuse  bool        `json:"reuse,omitempty"`  // the caller's slice is re-used after the build (second build, refill)
 }
 
 // ---- reference element: a triangle with an exact, absolute-range hit test ----
@@ -313,6 +314,45 @@ func (k *checker) order(kind string, tris [][]int, only *Case) {
 							Case:   Case{ElKind: kind, Tris: tris, Script: used, Whole: whole, Origin: r.o, Dir: r.d, Range: r.ri}})
 					}
 					c.Eval(scope, out)
+				}
+				// the caller's slice after the build: a second hierarchy built from the same slice (the
+				// builder sorts it in place, here along the opposite axes) and the slice refilled in
+				// reverse must not reach the first hierarchy
+				if !whole && n >= 3 && (only == nil || only.Reuse) {
+					shared := append([]rendering.Hittable{}, els...)
+					var first rendering.Hittable
+					g := core.Guard(func() {
+						choice.Reset(used)
+						first = rendering.NewBVHTree(shared, 0, n, 0, 0)
+						other := make([]int, 32)
+						for i := range other {
+							if len(used) > 0 {
+								other[i] = 2 - used[i%len(used)]%3
+							} else {
+								other[i] = 2
+							}
+						}
+						choice.Reset(other)
+						_ = rendering.NewBVHTree(shared, 0, n, 0, 0)
+						for i, j := 0, n-1; i < j; i, j = i+1, j-1 {
+							shared[i], shared[j] = shared[j], shared[i]
+						}
+					})
+					for ri := range rays {
+						r := &rays[ri]
+						if g.Panicked || elemBroken[ri] != "" || (only != nil && !sameRay(r)) {
+							continue
+						}
+						got, o := hitOf(first, r)
+						out := "ok"
+						if o.Panicked || !agree(got, nearest[ri]) {
+							out = "mismatch"
+							c.Violate(core.Violation{Site: "rendering.NewBVHTree", Clause: clNearest, Class: sizeClass + "/callers-slice-reused-after-the-build",
+								Detail: fmt.Sprintf("tris=%v axis script=%v, then a second hierarchy built from the same slice and the slice reversed; ray origin=%v dir=%v range=%v: first hierarchy %+v, exhaustive scan %+v %s", tris, used, r.o, r.d, c16.RayRanges()[r.ri], got, nearest[ri], o.Msg),
+								Case:   Case{ElKind: kind, Tris: tris, Script: used, Origin: r.o, Dir: r.d, Range: r.ri, Reuse: true}})
+						}
+						c.Eval("bvh/callers-slice-reused", out)
+					}
 				}
 			}
 			if only != nil {
